@@ -31,6 +31,9 @@ type C11Scenario struct {
 	Bit  int    `json:"bit,omitempty"`
 	Len  int    `json:"len,omitempty"`
 	Seed uint64 `json:"seed"`
+	// Repeat: that many unacceptable messages in a row on the connection (fresh
+	// bytes each time for garbage) before the genuine one
+	Repeat int `json:"repeat,omitempty"`
 }
 
 var c11Payloads = []int{1, 16, 100}
@@ -101,6 +104,9 @@ func genC11Random(g *Gen) any {
 		sc.Len = g.Int(2, 12)
 	case "garbage":
 		sc.Len = g.Pick(0, 1, 13, 14, 21, 22, 23, 37, 38, 100, 1000, 16401, 20480, g.Int(0, 20480))
+	}
+	if g.Bool(0.3) {
+		sc.Repeat = g.Pick(2, 3, 8, 9, 10, 16, 40, 100)
 	}
 	return sc
 }
@@ -260,8 +266,18 @@ func runC11(c *Ctx, scAny any) {
 				modDesc = fmt.Sprintf("%d arbitrary bytes", sc.Len)
 			}
 			d0 = digest()
-			if _, err := inj.Write(record(forged)); err != nil {
-				return "setup|inject: " + err.Error()
+			for k := 0; k < max(1, sc.Repeat); k++ {
+				if k > 0 && sc.Mod == "garbage" {
+					for i := range forged {
+						forged[i] = byte(rng.Uint32())
+					}
+				}
+				if _, err := inj.Write(record(forged)); err != nil {
+					return "setup|inject: " + err.Error()
+				}
+			}
+			if sc.Repeat > 1 {
+				modDesc = fmt.Sprintf("%s, %d such messages in a row", modDesc, sc.Repeat)
 			}
 			phase = 1
 			c.Probe("injected:" + sc.Mod)
